@@ -46,17 +46,18 @@ Section W.
   Let p := w_prefix o.
 
   (* ---------------------------------------------------------------- unfolding *)
-  Lemma write_group_noclip i c m fs ks :
-    write_group o (G i c m fs ks) false =
+  Lemma write_group_noclip i sy c m fs ks :
+    write_group o (G i sy c m fs ks) false =
     [XE Tg (id_attr o i ++ opt_url o K_CLIP c_id c ++ opt_url o K_MASK m_id m ++
-            match fs with [] => [] | _ => [AUrls (map (fun f => (p, f_id f)) fs)] end)
+            match fs with [] => [] | _ => [AUrls (map (fun f => (p, f_id f)) fs)] end ++
+            (if sy then [AStyle] else []))
         (flat_map (fun k => write_node o k false) ks)].
   Proof. reflexivity. Qed.
 
   Definition clip_kid (c : option clipdef) (k : node) : list xout :=
     match k with NPath pi fl st => [write_path o pi fl st (option_map c_id c)] | _ => [] end.
-  Lemma write_group_clip i c m fs ks :
-    write_group o (G i c m fs ks) true = flat_map (clip_kid c) ks.
+  Lemma write_group_clip i sy c m fs ks :
+    write_group o (G i sy c m fs ks) true = flat_map (clip_kid c) ks.
   Proof.
     cbn [write_group]. induction ks as [|k r IH]; [reflexivity|].
     destruct k; simpl; rewrite <- IH; reflexivity.
@@ -70,6 +71,8 @@ Section W.
 
   Lemma paint_attr_refs k pa r : In r (flat_map attr_refs (paint_attr o k pa)) -> is_server pa = true /\ r = (p, pa_id pa).
   Proof. destruct pa; simpl; intro H; try contradiction; destruct H as [H|[]]; subst; auto. Qed.
+  Lemma style_refs (sy : bool) : flat_map attr_refs (if sy then [AStyle] else []) = [].
+  Proof. destruct sy; reflexivity. Qed.
   Lemma id_attr_refs i : flat_map attr_refs (id_attr o i) = [].
   Proof. unfold id_attr. destruct (i =? 0); reflexivity. Qed.
 
@@ -161,7 +164,7 @@ Section W.
             -- intros c E. congruence.
             -- intros f Hin. rewrite E3 in Hin. destruct Hin.
       - (* G *)
-        intros i c m fs ks _ _ _ Hks Hkids Hown clip r Hr. destruct Hown as (O1 & O2 & O3). simpl g_kids in Hkids. simpl g_clip in O1. simpl g_mask in O2. simpl g_filters in O3.
+        intros i sy c m fs ks _ _ _ Hks Hkids Hown clip r Hr. destruct Hown as (O1 & O2 & O3). simpl g_kids in Hkids. simpl g_clip in O1. simpl g_mask in O2. simpl g_filters in O3.
         destruct clip.
         + rewrite write_group_clip in Hr. apply in_lrefs_flat_map in Hr. destruct Hr as (k & Hk & Hr).
           destruct k as [|pi fl st| |]; unfold clip_kid in Hr; try (destruct Hr; fail). rewrite lrefs_single in Hr.
@@ -169,7 +172,7 @@ Section W.
           * apply (Hp pi fl st fl (Hkids _ Hk)); simpl; auto.
           * apply (Hp pi fl st st (Hkids _ Hk)); simpl; auto.
           * destruct c as [cd|]; simpl in E; [|discriminate]. inversion E; subst. apply O1. reflexivity.
-        + rewrite write_group_noclip, lrefs_single, refs_of_eq in Hr. rewrite !flat_map_app, id_attr_refs in Hr.
+        + rewrite write_group_noclip, lrefs_single, refs_of_eq in Hr. rewrite !flat_map_app, id_attr_refs, style_refs, app_nil_r in Hr.
           apply in_app_or in Hr. destruct Hr as [Hr|Hr].
           * simpl app in Hr. apply in_app_or in Hr. destruct Hr as [Hr|Hr].
             { destruct c as [cd|]; simpl in Hr; [|destruct Hr]. destruct Hr as [<-|[]]. apply O1. reflexivity. }
@@ -204,13 +207,13 @@ Section W.
   Lemma write_node_has_id n : node_id n <> 0 -> flat_id_ok n -> In (p, node_id n) (ldefs (write_node o n false)).
   Proof.
     intros Hn Hfl. destruct n as [g|i fl st|i sub|i flat ch]; simpl in Hn.
-    - destruct g as [i c m fs ks]. rewrite write_node_group, write_group_noclip. simpl. rewrite !flat_map_app.
+    - destruct g as [i sy c m fs ks]. rewrite write_node_group, write_group_noclip. simpl. rewrite !flat_map_app.
       rewrite (id_attr_defs i Hn). simpl. auto.
     - simpl. rewrite !flat_map_app, (id_attr_defs i Hn). simpl. auto.
     - simpl. rewrite !flat_map_app, (id_attr_defs i Hn). simpl. auto.
     - rewrite write_node_text. destruct (w_preserve_text o).
       + simpl. rewrite (id_attr_defs i Hn). simpl. auto.
-      + simpl in Hfl. destruct flat as [j c m fs ks]. simpl in Hfl. subst j. rewrite write_group_noclip. simpl.
+      + simpl in Hfl. destruct flat as [j sy c m fs ks]. simpl in Hfl. subst j. rewrite write_group_noclip. simpl.
         rewrite !flat_map_app, (id_attr_defs i Hn). simpl. auto.
   Qed.
 
@@ -655,7 +658,7 @@ Section Prefix.
       destruct (w_preserve_text o); [|apply Hfl].
       rewrite lmarks_single, marks_of_eq. apply allp_app; [apply allp_id|].
       apply allp_lmarks_map. intros c _. apply allp_chunk.
-    - intros i c m fs ks _ _ _ Hks clip. destruct clip.
+    - intros i sy c m fs ks _ _ _ Hks clip. destruct clip.
       + rewrite write_group_clip. unfold lmarks. intros r Hr. apply in_flat_map in Hr. destruct Hr as (x & Hx & Hr).
         apply in_flat_map in Hx. destruct Hx as (k & Hk & Hx).
         destruct k as [|pi fl st| |]; unfold clip_kid in Hx; try (destruct Hx; fail).
@@ -665,6 +668,7 @@ Section Prefix.
         * destruct fs as [|f0 fr]; [apply allp_nil|]. simpl flat_map. rewrite app_nil_r.
           intros r Hr. change (In r (map (fun f => (p, f_id f)) (f0 :: fr))) in Hr. apply in_map_iff in Hr.
           destruct Hr as (f & <- & _). reflexivity.
+        * destruct sy; simpl; apply allp_nil.
         * intros r Hr. unfold lmarks in Hr. apply in_flat_map in Hr. destruct Hr as (x & Hx & Hr).
           apply in_flat_map in Hx. destruct Hx as (k & Hk & Hx). rewrite Forall_forall in Hks.
           apply (Hks k Hk false r). unfold lmarks. apply in_flat_map. exists x. split; auto.
@@ -795,13 +799,13 @@ Section Xlink.
         simpl orb in H. apply lx_map in H. destruct H as ([fl st] & _ & H). unfold write_ppair in H.
         rewrite uses_xlink_eq, existsb_app, !paint_attr_nox in H. discriminate.
       + destruct (Hfl clip H) as (m & Hm & Ht). exists m. split; auto. rewrite all_node_text. right. exact Hm.
-    - intros i c m fs ks _ _ _ Hks clip H. rewrite all_group_eq. destruct clip.
+    - intros i sy c m fs ks _ _ _ Hks clip H. rewrite all_group_eq. destruct clip.
       + rewrite write_group_clip in H. apply lx_flat_map in H. destruct H as (k & Hk & H).
         destruct k as [|pi fl st| |]; unfold clip_kid in H; try discriminate.
         rewrite lx_single, write_path_nox in H. discriminate.
       + rewrite write_group_noclip, lx_single, uses_xlink_eq in H. rewrite !existsb_app, id_attr_nox, !opt_url_nox in H.
         assert (H' : lx (flat_map (fun k => write_node o k false) ks) = true)
-          by (destruct fs; cbn [orb existsb attr_xlink] in H; exact H).
+          by (destruct fs, sy; cbn [orb existsb attr_xlink] in H; exact H).
         clear H. rename H' into H. apply lx_flat_map in H. destruct H as (k & Hk & H).
         rewrite Forall_forall in Hks. destruct (Hks k Hk false H) as (m0 & Hm0 & Ht). exists m0. split; auto.
         apply in_flat_map. exists k. split; auto.
@@ -811,7 +815,7 @@ Section Xlink.
   Proof.
     unfold write_elements. intro H. apply lx_flat_map in H. destruct H as (k & Hk & H).
     destruct (proj1 xl_content k clip H) as (m & Hm & Ht). exists m. split; auto.
-    destruct g as [i c mk fs ks]. rewrite all_group_eq. apply in_flat_map. exists k. split; auto.
+    destruct g as [i sy c mk fs ks]. rewrite all_group_eq. apply in_flat_map. exists k. split; auto.
   Qed.
 
   Lemma has_xlink_complete root n : In n (all_group root) -> xlink_trigger n = true -> has_xlink root = true.
@@ -878,7 +882,7 @@ Section Xlink.
     2:{ unfold write, declares_xlink. fold root. rewrite Hgoal. reflexivity. }
     assert (Hsub : forall g, (forall k, In k (g_kids g) -> In k (all_group root)) ->
                    forall m, In m (all_group g) -> In m (all_group root)).
-    { intros g Hk m Hm. destruct g as [i c mk fs ks]. rewrite all_group_eq in Hm. apply in_flat_map in Hm.
+    { intros g Hk m Hm. destruct g as [i sy c mk fs ks]. rewrite all_group_eq in Hm. apply in_flat_map in Hm.
       destruct Hm as (k & Hkin & Hm). apply (U_closed root k (Hk k Hkin)). exact Hm. }
     unfold write in H. rewrite uses_xlink_eq in H.
     assert (E : existsb attr_xlink (AXmlns :: (if has_xlink (t_root t) then [AXlink] else [])) = false)
